@@ -195,6 +195,55 @@ var tokRe = regexp.MustCompile(`[A-Za-z_$][A-Za-z0-9_.$!@]*`)
 // Emit produces a self-contained SMT-LIB script: hyps are asserted, goal is
 // negated. If goal == "" only the hypotheses are asserted (vacuity query).
 func (vc *VC) Emit(hyps []string, goal string, wantModel bool) string {
+	return vc.EmitOpt(hyps, goal, wantModel, false)
+}
+
+// weakenForalls replaces universally quantified sub-formulas in positive positions by true.
+// ok is false when a quantifier occurs somewhere it cannot be dropped soundly.
+func weakenForalls(t string) (string, bool) {
+	if !strings.Contains(t, "(forall ") && !strings.Contains(t, "(exists ") {
+		return t, true
+	}
+	if strings.HasPrefix(t, "(forall ") {
+		return "true", true
+	}
+	p := sexpList(t)
+	if len(p) == 0 {
+		return t, false
+	}
+	switch p[0] {
+	case "and", "or":
+		out := []string{p[0]}
+		for _, a := range p[1:] {
+			w, ok := weakenForalls(a)
+			if !ok {
+				return t, false
+			}
+			out = append(out, w)
+		}
+		return "(" + strings.Join(out, " ") + ")", true
+	case "=>":
+		if len(p) != 3 || strings.Contains(p[1], "(forall ") || strings.Contains(p[1], "(exists ") {
+			return t, false
+		}
+		w, ok := weakenForalls(p[2])
+		if !ok {
+			return t, false
+		}
+		return "(=> " + p[1] + " " + w + ")", true
+	case "!":
+		if len(p) >= 2 {
+			return weakenForalls(p[1])
+		}
+	}
+	return t, false
+}
+
+// EmitOpt: with weaken, every definition D = body whose body has universally quantified conjuncts
+// is emitted as D => body-without-them (a consequence of the definition), so that only the
+// ground instances produced by defInstances / termInstances remain. A weaker hypothesis set:
+// unsat still proves the goal, sat means nothing.
+func (vc *VC) EmitOpt(hyps []string, goal string, wantModel bool, weaken bool) string {
 	var skDecls []string
 	var sks []skolem
 	if goal != "" {
@@ -288,6 +337,12 @@ func (vc *VC) Emit(hyps []string, goal string, wantModel bool) string {
 	for _, d := range vc.defs {
 		if !needed[d.Name] || d.Body == "" {
 			continue
+		}
+		if weaken && d.Sort == "Bool" && strings.Contains(d.Body, "(forall ") {
+			if w, ok := weakenForalls(d.Body); ok {
+				fmt.Fprintf(&b, "(assert (=> %s %s))\n", d.Name, w)
+				continue
+			}
 		}
 		fmt.Fprintf(&b, "(assert (= %s %s))\n", d.Name, d.Body)
 	}
